@@ -83,7 +83,13 @@ var PlainPool = []CompSpec{
 	spec("uint16", tU16),
 	spec("struct{A uint16;B uint8}", reflect.StructOf([]reflect.StructField{fld("A", tU16), fld("B", tByte)})),
 	spec("struct{A uint32;B [5]byte}", reflect.StructOf([]reflect.StructField{fld("A", tU32), fld("B", reflect.ArrayOf(5, tByte))})),
+	// HugePlain: larger than 64 KiB (sizes and offsets that do not fit 16 bits); drawn rarely and on purpose
+	spec("[66000]byte", reflect.ArrayOf(66000, tByte)),
 }
+
+// HugePlain is the index of the > 64 KiB component type in PlainPool; GenUniverse draws the ordinary
+// shapes from the indices before it.
+var HugePlain = len(PlainPool) - 1
 
 // RelPool holds relation component types (ecs.Relation embedded first).
 var RelPool = []CompSpec{
